@@ -77,7 +77,16 @@ pub fn expected_de(ty: u8, fmt: u8, shape: u8, raw: &[u8]) -> Option<Resp> {
     } else {
         match shape {
             0 | 7 => ok(raw),
-            1 | 2 | 3 | 4 | 5 => Resp::Rej,
+            // a JSON string: serde_json hands the string's bytes to visit_bytes when the type asks for
+            // bytes (SigningKey, VerifyingKey use deserialize_bytes), so a 32-character string is a
+            // 32-byte key whose bytes are the ASCII characters; tuple-based types reject strings
+            2 => {
+                let ascii = crate::util::hex(raw).into_bytes();
+                if is_bytes_type(ty) { ok(&ascii) } else { Resp::Rej }
+            }
+            1 | 3 | 4 | 5 => Resp::Rej,
+            // a trailing element that is not a u8: always an error, whatever precedes it
+            8 | 9 | 10 | 11 => Resp::Rej,
             6 => if raw.is_empty() { ok(raw) } else { Resp::Rej },
             _ => return None,
         }
